@@ -22,7 +22,7 @@ from .utils import (
 from .version import DEFAULT_VERSION
 
 ID_REGEX_interoperability = re.compile(
-    r"[0-9a-fA-F]{8}-[0-9a-fA-F]{4}-[0-9a-fA-F]{4}-[0-9a-fA-F]{4}-[0-9a-fA-F]{12}$",
+    r"[0-9a-fA-F]{8}-[0-9a-fA-F]{4}-[0-9a-fA-F]{4}-[0-9a-fA-F]{4}-[0-9a-fA-F]{12}\Z",
 )
 TYPE_REGEX = re.compile(r'^-?[a-z0-9]+(-[a-z0-9]+)*-?$')
 TYPE_21_REGEX = re.compile(r'^([a-z][a-z0-9]*)+([a-z0-9-]+)*-?$')
@@ -416,7 +416,7 @@ class DictionaryProperty(Property):
             elif self.spec_version == '2.1':
                 if len(k) > 250:
                     raise DictionaryKeyError(k, "longer than 250 characters")
-            if not re.match(r"^[a-zA-Z0-9_-]+$", k):
+            if not re.match(r"^[a-zA-Z0-9_-]+\Z", k):
                 msg = (
                     "contains characters other than lowercase a-z, "
                     "uppercase A-Z, numerals 0-9, hyphen (-), or "
@@ -504,7 +504,7 @@ class BinaryProperty(Property):
 class HexProperty(Property):
 
     def clean(self, value, allow_custom=False):
-        if not re.match(r"^([a-fA-F0-9]{2})+$", value):
+        if not re.match(r"^([a-fA-F0-9]{2})+\Z", value):
             raise ValueError("must contain an even number of hexadecimal characters")
         return value, False
 
